@@ -4,7 +4,7 @@ under the machine-wide flock, and records the result in seeded/<id>/meta.json. R
 the suite has 1-second handshake timeouts."""
 import glob, json, os, shutil, subprocess, sys, tempfile
 ENV = dict(os.environ, GOFLAGS="-mod=mod", GOPROXY="off", GOSUMDB="off", GOTOOLCHAIN="local")
-only = sys.argv[1:]
+only = sys.argv[1:]  # directory names under seeded/ (e.g. C08 C11-r2)
 for d in sorted(glob.glob("/verif/seeded/C*")):
     sid = os.path.basename(d)
     if only and sid not in only:
@@ -28,7 +28,7 @@ for d in sorted(glob.glob("/verif/seeded/C*")):
     meta["suite_passes_with_change"] = ok
     meta["suite_tail"] = tail
     meta.setdefault("what_was_run", []).append("repository suite (unedited) on HEAD + patch, alone, under flock: %s (attempt %d)" % ("pass" if ok else "FAIL", attempt + 1))
-    if ok and meta.get("verdict", "").startswith("not confirmed"):
+    if ok and meta.get("verdict", "").startswith(("not confirmed", "rejected: the repository")):
         if meta.get("builds_with_change") and str(meta.get("demo_fails_with_change", "0"))[0] in "123" and str(meta.get("demo_passes_without_change", "0"))[0] == "2":
             meta["verdict"] = "kept"
     if not ok:
